@@ -4,7 +4,12 @@
 //!   C18 parse data=<hex>   real `BoxReader::read_super_box` on `Cursor::new(data)`, canonical dump of
 //!                          the tree, re-serialisation with the real `write_box`, second pass
 //!   C18 tree t=<tree>      the tree is built from the real box types, written with `write_box`,
-//!                          then as `parse`
+//!                          then as `parse`; the constructor forms `N(..)` / `m(..)` are built with
+//!                          `JUMBFDescriptionBox::new` + `set_salt` / `JUMBFEmbeddedFileDescriptionBox::new`,
+//!                          or with the SDK's own wrappers (`CAIJSONAssertionBox::new` + `add_json` + `set_salt`,
+//!                          `CAIUUIDAssertionBox::add_uuid`, `JumbfEmbeddedFileBox::add_data`, …)
+//!   C18 mfrom data=.. dec=.. enc=..   `CAIManifest::from` on the super box read from `data`, and
+//!                          `CAIManifest::write_box_payload` of the result (Brotli results supplied as a table)
 //!
 //! Property oracle on the implementation (independent of the model):
 //!   store-identity / store-fixed-point   `Store::from_jumbf_with_context` → `to_jumbf_internal` on stores the
@@ -13,6 +18,11 @@
 //!        the identity on the written bytes
 //!   box-parse-ser      generated well-formed trees: read(write(t)) dumps as t
 //!   depth              accepted trees nest ≤ 32, panic / hang (watchdog) never
+//!   ctor-roundtrip     boxes built with the SDK's constructors from a label that is a non-empty string without
+//!        NUL read back as themselves; `ctor-unreadable-label` is counted (not a failure of this property at box
+//!        level: the store serialiser refuses such labels) for the others
+//!   store-unreadable   a store produced through `Claim` / `Store::to_jumbf_internal` or `Builder::sign` is rejected
+//!   large-size-child-misread   (finding) the payload of a large-size child box is read as sibling boxes
 
 use std::{io::Cursor, sync::mpsc, time::Duration};
 
@@ -223,6 +233,10 @@ enum T {
     L(char, Vec<u8>),
     U([u8; 16], Vec<u8>),
     M(u8, Vec<u8>, Option<Vec<u8>>),
+    /// `JUMBFDescriptionBox::new(label, Some(uuid))` (+ `set_salt`)
+    N { uuid: [u8; 16], label: String, salt: Option<Vec<u8>>, kids: Vec<T> },
+    /// `JUMBFEmbeddedFileDescriptionBox::new(media_type, file_name)`
+    Mn(String, Option<String>),
 }
 
 fn oh(b: &Option<Vec<u8>>) -> String {
@@ -244,6 +258,10 @@ fn t_text(t: &T) -> String {
         T::L(k, d) => format!("L{k}({})", hex(d)),
         T::U(u, d) => format!("U({};{})", hex(u), hex(d)),
         T::M(t, m, f) => format!("M({};{};{})", t, hex(m), oh(f)),
+        T::N { uuid, label, salt, kids } => {
+            format!("N({};{};{})[{}]", hex(uuid), hex(label.as_bytes()), oh(salt), kids.iter().map(t_text).collect::<Vec<_>>().join(","))
+        }
+        T::Mn(m, f) => format!("m({};{})", hex(m.as_bytes()), f.as_ref().map(|f| hex(f.as_bytes())).unwrap_or_else(|| "~".into())),
     }
 }
 
@@ -257,13 +275,26 @@ fn t_build_super(t: &T) -> JUMBFSuperBox {
             }
             sb
         }
+        T::N { uuid, label, salt, kids } => {
+            let mut d = hook::JUMBFDescriptionBox::new(label, Some(&hex(uuid)));
+            if let Some(sa) = salt {
+                // a refused salt (shorter than 16 bytes) leaves the box as it was
+                let _ = d.set_salt(sa.clone());
+            }
+            let mut sb = JUMBFSuperBox::from(d);
+            for k in kids {
+                sb.add_data_box(t_build(k));
+            }
+            sb
+        }
         _ => unreachable!("top level is a super box"),
     }
 }
 
 fn t_build(t: &T) -> Box<dyn BMFFBox> {
     match t {
-        T::S { .. } => Box::new(t_build_super(t)),
+        T::S { .. } | T::N { .. } => Box::new(t_build_super(t)),
+        T::Mn(m, f) => Box::new(hook::JUMBFEmbeddedFileDescriptionBox::new(m.clone(), f.clone())),
         T::L('j', d) => Box::new(hook::JUMBFJSONContentBox::new(d.clone())),
         T::L('c', d) => Box::new(hook::JUMBFCBORContentBox::new(d.clone())),
         T::L('f', d) => Box::new(hook::JUMBFPaddingContentBox::new_with_vec(d.clone())),
@@ -617,15 +648,53 @@ fn make_stores(run: &mut Run, rng: &mut Rng) -> Vec<Made> {
         for round in 0..rounds {
             let mut r = rng.fork();
             // plain v2 / v1
+            let mut v1_parent: Option<Vec<u8>> = None;
             for ver in [2u8, 1] {
                 let def = base_def("plain", fmt, ver, &mut r);
                 let res = sign_with(&def, &settings_json(false, false), fmt, &src, |_| Ok(()));
-                push(run, &mut out, format!("plain-v{ver}:{file}:{round}"), fmt, res);
+                let a = push(run, &mut out, format!("plain-v{ver}:{file}:{round}"), fmt, res);
+                if ver == 1 {
+                    v1_parent = a;
+                }
+            }
+            // an edit as a v1 claim on a v1 parent, with thumbnails: ingredient thumbnail and ingredient data
+            // become data boxes (`c2pa.databoxes` store) through the public API
+            if let Some(parent) = v1_parent {
+                let mut def = base_def("edit-v1", fmt, 1, &mut r);
+                def["ingredients"] = serde_json::json!([{"title": "data-ingredient", "relationship": "componentOf", "format": "text/plain",
+                    "thumbnail": {"format": "image/jpeg", "identifier": "ing-thumb.jpg"}, "data": {"format": "text/plain", "identifier": "ing-data.txt"}}]);
+                let ing = serde_json::json!({"title": "parent", "relationship": "parentOf"}).to_string();
+                let p2 = parent.clone();
+                let f2 = fmt.to_string();
+                let tb = r.bytes(40);
+                let db = r.bytes(17);
+                let res = sign_with(&def, &settings_json(false, true), fmt, &parent, |b| {
+                    b.set_intent(BuilderIntent::Edit);
+                    b.add_resource("ing-thumb.jpg", Cursor::new(tb.clone()))?;
+                    b.add_resource("ing-data.txt", Cursor::new(db.clone()))?;
+                    b.add_ingredient_from_stream(ing.as_str(), f2.as_str(), &mut Cursor::new(p2))?;
+                    Ok(())
+                });
+                if let Some(a) = push(run, &mut out, format!("edit-v1:{file}:{round}"), fmt, res) {
+                    if jumbf_of(fmt, &a).map(|j| j.windows(14).any(|w| w == b"c2pa.databoxes")).unwrap_or(false) {
+                        run.count("builder_databox_store");
+                    }
+                }
             }
             // compressed
             let def = base_def("compressed", fmt, 2, &mut r);
             let res = sign_with(&def, &settings_json(true, false), fmt, &src, |_| Ok(()));
             push(run, &mut out, format!("compressed:{file}:{round}"), fmt, res);
+            // an assertion label that a JUMBF description box cannot carry: signing must fail
+            // (formerly: a store that cannot be read back; fixes/C18-reject-unstorable-box-labels.patch)
+            if round == 0 {
+                let mut def = base_def("badlabel", fmt, 2, &mut r);
+                def["assertions"].as_array_mut().expect("array").push(serde_json::json!({"label": *r.pick(&["org.verif\u{0}x", "org.verif.t\u{0}", "\u{0}"]), "kind": "Json", "data": {"a": 1}}));
+                match sign_with(&def, &settings_json(false, false), fmt, &src, |_| Ok(())) {
+                    Err(_) => run.count("builder_refused_label"),
+                    Ok(asset) => { push(run, &mut out, format!("badlabel:{file}:{round}"), fmt, Ok(asset)); }
+                }
+            }
             // thumbnail resource + extra resource-bearing assertion
             let mut def = base_def("thumb", fmt, 2, &mut r);
             def["thumbnail"] = serde_json::json!({"format": "image/jpeg", "identifier": "thumb.jpg"});
@@ -731,6 +800,8 @@ fn store_rt(x: &[u8]) -> StoreRt {
 
 struct Ctl {
     hangs: usize,
+    /// accepted inputs whose tree has one of the quirks (fed to CAIManifest::from, whose re-read changes / rejects them)
+    quirky: Vec<Vec<u8>>,
 }
 
 /// One `parse` case with all box-level oracles. Returns (case index, accepted?).
@@ -748,6 +819,9 @@ fn parse_case(run: &mut Run, ctl: &mut Ctl, x: &[u8], tag: &str) -> (usize, bool
             let idx = run.case(req, p.reply.clone());
             if let Some(sh) = &p.shape {
                 box_oracle(run, idx, sh, &p, tag);
+                if (sh.empty_super || sh.empty_uuid || sh.bfdb_grows) && ctl.quirky.len() < 400 && x.len() < 4000 {
+                    ctl.quirky.push(x.to_vec());
+                }
             }
             (idx, accepted)
         }
@@ -829,32 +903,43 @@ fn store_case(run: &mut Run, ctl: &mut Ctl, idx: usize, x: &[u8], produced: bool
 }
 
 fn tree_case(run: &mut Run, ctl: &mut Ctl, t: &T, wf: bool) -> Option<Vec<u8>> {
+    tree_case_with(run, ctl, t, wf, None, true)
+}
+
+/// `wrapper` = bytes written by one of the SDK's wrapper types that must equal what the tree `t` writes;
+/// `cmp_dump` = compare the dump of the built tree with the dump of the parsed one (otherwise bytes only).
+fn tree_case_with(run: &mut Run, ctl: &mut Ctl, t: &T, wf: bool, wrapper: Option<Vec<u8>>, cmp_dump: bool) -> Option<Vec<u8>> {
     let req = format!("C18 tree t={}", t_text(t));
     let t2 = t.clone();
     let out = if ctl.hangs < 3 {
         watched(20, move || {
             let sb = t_build_super(&t2);
-            let bytes = written(&sb);
+            let own = written(&sb);
+            let differs = wrapper.as_ref().map(|w| *w != own).unwrap_or(false);
+            let bytes = wrapper.unwrap_or(own);
             let size = sb.box_size().expect("size");
             let mut sh = Shape::default();
             let dump = dump_super(&sb, 1, &mut sh);
             let p = impl_parse(&bytes);
-            (bytes, size, dump, p)
+            (bytes, size, dump, p, differs)
         })
     } else {
         Out::Hang
     };
     match out {
-        Out::Done((bytes, size, dump, p)) => {
+        Out::Done((bytes, size, dump, p, differs)) => {
             let idx = run.case(req, format!("bytes={} size={} {}", len_fnv(&bytes), size, p.reply));
             run.count(if wf { "tree_wf" } else { "tree_any" });
+            if differs {
+                run.fail(idx, "ctor-wrapper", "an SDK wrapper type writes other bytes than JUMBFDescriptionBox::new / set_salt / add_data_box with the same arguments".into());
+            }
             if let Some(sh) = &p.shape {
                 run.count("tree_accepted");
                 box_oracle(run, idx, sh, &p, "tree");
                 if wf {
                     // parse ∘ ser = id on the implementation
                     let got = p.reply.split(" tree=").nth(1).and_then(|s| s.split(" ser=").next()).unwrap_or("");
-                    if got != dump || p.ser != bytes {
+                    if (cmp_dump && got != dump) || p.ser != bytes {
                         run.fail(idx, "box-parse-ser", format!("read(write(t)) is not t for a well-formed tree: {} vs {}", &got[..got.len().min(120)], &dump[..dump.len().min(120)]));
                     } else {
                         run.nontrivial(format!("ps {}", fnv(&bytes)));
@@ -870,9 +955,348 @@ fn tree_case(run: &mut Run, ctl: &mut Ctl, t: &T, wf: bool) -> Option<Vec<u8>> {
     }
 }
 
+// ---------------------------------------------------------------------------------------------
+// trees built with the SDK's constructors
+// ---------------------------------------------------------------------------------------------
+
+const U_JSON: &str = "6A736F6E00110010800000AA00389B71";
+const U_CBOR: &str = "63626F7200110010800000AA00389B71";
+const U_UUID: &str = "7575696400110010800000AA00389B71";
+const U_EMBEDDED: &str = "40CB0C32BB8A489DA70B2AD6F47F4369";
+const U_C2AS: &str = "6332617300110010800000AA00389B71";
+const U_C2MA: &str = "63326D6100110010800000AA00389B71";
+const U_C2UM: &str = "6332756D00110010800000AA00389B71";
+const U_C2CM: &str = "6332636D00110010800000AA00389B71";
+const U_C2CL: &str = "6332636C00110010800000AA00389B71";
+const U_REDACTION: &str = "CAA98EEE9D4DF80E86AD4DFFCA263973";
+
+fn u16b(h: &str) -> [u8; 16] {
+    let v = hex::decode(h).expect("uuid hex");
+    let mut u = [0u8; 16];
+    u.copy_from_slice(&v);
+    u
+}
+
+/// `ok` = a non-empty string without NUL (the domain of `new_roundtrip`)
+fn gen_ctor_label(r: &mut Rng, ok: bool) -> String {
+    let good = ["c2pa.actions", "org.verif.t1", "a", "é€😀", "c2pa.thumbnail.claim.jpeg", "did:x:1/../y", "c2pa.assertions", "x y\t\u{7f}"];
+    let bad = ["", "a\0b", "\0", "c2pa.hash.data\0", "\0tail", "é\0€"];
+    if ok || r.chance(1, 2) { r.pick(&good).to_string() } else { r.pick(&bad).to_string() }
+}
+
+fn label_ok(l: &str) -> bool {
+    !l.is_empty() && !l.contains('\0')
+}
+
+fn gen_ctor_salt(r: &mut Rng) -> Option<Vec<u8>> {
+    if r.chance(1, 2) {
+        None
+    } else {
+        // below 16 bytes `set_salt` refuses and the box stays as it was
+        let n = *r.pick(&[16usize, 32, 17, 0, 1, 15]);
+        Some(r.bytes(n))
+    }
+}
+
+/// Content boxes inside the domain of the round-trip theorem when `wf`.
+fn gen_ctor_kids(r: &mut Rng, depth: usize, wf: bool) -> Vec<T> {
+    let nk = r.range(if wf { 1 } else { 0 }, 3);
+    let mut kids = vec![];
+    for _ in 0..nk {
+        let c = r.below(10);
+        kids.push(if c < 2 && depth < 3 {
+            gen_ctor_tree(r, depth + 1, wf)
+        } else if c < 6 {
+            let n = *r.pick(&[0usize, 1, 2, 9, 24]);
+            T::L(*r.pick(&LEAF_KINDS), r.bytes(n))
+        } else if c < 8 {
+            let mut u = [0u8; 16];
+            u.copy_from_slice(&r.bytes(16));
+            let n = if wf { r.range(1, 12) } else { *r.pick(&[0u64, 0, 4]) } as usize;
+            T::U(u, r.bytes(n))
+        } else {
+            let mt = if wf || r.chance(1, 2) { r.pick(&["image/png", "image/jpeg", "a", "application/x-é"]).to_string() } else { r.pick(&["", "image/\0png", "\0"]).to_string() };
+            let f = if r.chance(1, 2) { None } else { Some(r.pick(&["name.png", "", "a\0b", "é.jpg"]).to_string()) };
+            T::Mn(mt, f)
+        });
+    }
+    kids
+}
+
+fn gen_ctor_tree(r: &mut Rng, depth: usize, wf: bool) -> T {
+    let uuid = u16b(*r.pick(&[U_JSON, U_CBOR, U_UUID, U_EMBEDDED, U_C2AS, U_C2MA]));
+    T::N { uuid, label: gen_ctor_label(r, wf), salt: gen_ctor_salt(r), kids: gen_ctor_kids(r, depth, wf) }
+}
+
+fn all_labels_ok(t: &T) -> bool {
+    match t {
+        T::N { label, kids, .. } => label_ok(label) && kids.iter().all(all_labels_ok),
+        T::S { kids, .. } => kids.iter().all(all_labels_ok),
+        _ => true,
+    }
+}
+
+/// A box built with one of the SDK's wrapper types, and the constructor tree that must write the same bytes.
+fn gen_wrapper(r: &mut Rng, wf: bool) -> (Vec<u8>, T) {
+    let label = gen_ctor_label(r, wf);
+    let salt = gen_ctor_salt(r);
+    let n = *r.pick(&[0usize, 1, 2, 9, 40]);
+    let data = r.bytes(n);
+    match r.below(5) {
+        0 => {
+            let mut b = hook::CAIJSONAssertionBox::new(&label);
+            b.add_json(data.clone());
+            if let Some(sa) = &salt { let _ = b.set_salt(sa.clone()); }
+            (written(b.super_box()), T::N { uuid: u16b(U_JSON), label, salt, kids: vec![T::L('j', data)] })
+        }
+        1 => {
+            let mut b = hook::CAICBORAssertionBox::new(&label);
+            b.add_cbor(data.clone());
+            if let Some(sa) = &salt { let _ = b.set_salt(sa.clone()); }
+            (written(b.super_box()), T::N { uuid: u16b(U_CBOR), label, salt, kids: vec![T::L('c', data)] })
+        }
+        2 => {
+            let mut u = [0u8; 16];
+            u.copy_from_slice(&r.bytes(16));
+            let data = if wf && data.is_empty() { vec![0u8; 4] } else { data };
+            let mut b = hook::CAIUUIDAssertionBox::new(&label);
+            b.add_uuid(&hex::encode_upper(u), data.clone()).expect("16-byte uuid");
+            if let Some(sa) = &salt { let _ = b.set_salt(sa.clone()); }
+            (written(b.super_box()), T::N { uuid: u16b(U_UUID), label, salt, kids: vec![T::U(u, data)] })
+        }
+        3 => {
+            let mt = r.pick(&["image/png", "image/jpeg", "a"]).to_string();
+            let f = if r.chance(1, 2) { None } else { Some("name.png".to_string()) };
+            let mut b = hook::JumbfEmbeddedFileBox::new(&label);
+            b.add_data(data.clone(), mt.clone(), f.clone());
+            if let Some(sa) = &salt { let _ = b.set_salt(sa.clone()); }
+            (written(b.super_box()), T::N { uuid: u16b(U_EMBEDDED), label, salt, kids: vec![T::Mn(mt, f), T::L('d', data)] })
+        }
+        _ => {
+            // an assertion store with one or two assertion boxes
+            let mut st = hook::CAIAssertionStore::new();
+            let mut kids = vec![];
+            for i in 0..r.range(1, 2) {
+                let l = if i == 0 { label.clone() } else { gen_ctor_label(r, wf) };
+                let mut b = hook::CAIJSONAssertionBox::new(&l);
+                b.add_json(data.clone());
+                if let Some(sa) = &salt { let _ = b.set_salt(sa.clone()); }
+                st.add_assertion(Box::new(b));
+                kids.push(T::N { uuid: u16b(U_JSON), label: l, salt: salt.clone(), kids: vec![T::L('j', data.clone())] });
+            }
+            (written(&st), T::N { uuid: u16b(U_C2AS), label: "c2pa.assertions".into(), salt: None, kids })
+        }
+    }
+}
+
+// ---------------------------------------------------------------------------------------------
+// the manifest layer: CAIManifest::from / write_box_payload
+// ---------------------------------------------------------------------------------------------
+
+const MFROM_CAP: usize = 1 << 20;
+
+fn brotli_dec(x: &[u8]) -> Option<Vec<u8>> {
+    let mut out = vec![];
+    match brotli::BrotliDecompress(&mut Cursor::new(x), &mut out) {
+        Ok(()) if out.len() <= MFROM_CAP => Some(out),
+        _ => None,
+    }
+}
+
+fn brotli_enc(x: &[u8]) -> Vec<u8> {
+    let mut out = vec![];
+    let params = brotli::enc::BrotliEncoderParams::default();
+    brotli::BrotliCompress(&mut Cursor::new(x), &mut out, &params).expect("compress to vec");
+    out
+}
+
+struct MfromOut {
+    req: String,
+    reply: String,
+    /// Some((input bytes consumed as written by the reader, compressed?, written manifest, quirk-free?))
+    ok: Option<(Vec<u8>, bool, Vec<u8>, bool)>,
+}
+
+fn impl_mfrom(data: &[u8]) -> MfromOut {
+    let (r, _) = read_at(data);
+    let sb = match r {
+        Err(e) => return MfromOut { req: format!("C18 mfrom data={} dec=~ enc=~", hex(data)), reply: format!("err {}", err_class(&e)), ok: None },
+        Ok(sb) => sb,
+    };
+    // `~` = no brob child (not asked), `!` = decompression fails, otherwise the bytes (`-` = empty)
+    let dec = match sb.data_box_as_brotli_box(0) {
+        Some(b) => match brotli_dec(b.data()) { Some(raw) => hex(&raw), None => "!".to_string() },
+        None => "~".to_string(),
+    };
+    match hook::manifest_from(&sb, MFROM_CAP) {
+        Err(e) => MfromOut { req: format!("C18 mfrom data={} dec={} enc=~", hex(data), dec), reply: format!("err {}", err_class(&e)), ok: None },
+        Ok(m) => {
+            let inner = written(m.super_box());
+            let enc = if m.compressed_store { hex(&brotli_enc(&inner)) } else { "~".to_string() };
+            let w = written(&m);
+            let t = match m.box_uuid() { U_C2UM => "u", "63326D6400110010800000AA00389B71" => "d", _ => "m" };
+            let mut sh = Shape::default();
+            let dump = dump_super(m.super_box(), 1, &mut sh);
+            let quirk = sh.empty_super || sh.empty_uuid || sh.bfdb_grows;
+            MfromOut {
+                req: format!("C18 mfrom data={} dec={} enc={}", hex(data), dec, enc),
+                reply: format!("ok c={} t={} tree={} w={}", m.compressed_store as u8, t, dump, len_fnv(&w)),
+                ok: Some((written(&sb), m.compressed_store, w, !quirk)),
+            }
+        }
+    }
+}
+
+/// One `mfrom` case with its oracles (independent of the model):
+///  manifest-reload-identity  a plain quirk-free manifest is written back exactly as the store reader wrote it
+///  manifest-fixed-point      the written manifest is loaded again and written to the same bytes (this is where
+///                            Brotli determinism is exercised for compressed manifests)
+fn mfrom_case(run: &mut Run, ctl: &mut Ctl, data: &[u8], tag: &str) {
+    let dv = data.to_vec();
+    let out = if ctl.hangs < 3 { watched(30, move || {
+        let o = impl_mfrom(&dv);
+        let second = o.ok.as_ref().map(|(_, _, w, _)| impl_mfrom(w).ok.map(|(_, _, w2, _)| w2));
+        (o, second)
+    }) } else { Out::Hang };
+    match out {
+        Out::Done((o, second)) => {
+            let idx = run.case(o.req, o.reply.clone());
+            run.count(&format!("mfrom_{tag}_{}", if o.ok.is_some() { "ok" } else { "err" }));
+            if let Some((own, compressed, w, quirk_free)) = o.ok {
+                run.count(if compressed { "mfrom_compressed" } else { "mfrom_plain" });
+                if !compressed && quirk_free && w != own {
+                    run.fail(idx, "manifest-reload-identity", format!("[{tag}] CAIManifest::from changes a quirk-free plain manifest: {} vs {} bytes", w.len(), own.len()));
+                }
+                if quirk_free {
+                    match second {
+                        Some(Some(w2)) if w2 == w => { run.nontrivial(format!("mf {}", fnv(&w))); }
+                        Some(Some(w2)) => run.fail(idx, "manifest-fixed-point", format!("[{tag}] the written manifest loads and writes to other bytes ({} vs {})", w2.len(), w.len())),
+                        _ => run.fail(idx, "manifest-fixed-point", format!("[{tag}] the written manifest ({} bytes, compressed={compressed}) is not loaded again", w.len())),
+                    }
+                }
+            }
+        }
+        Out::Panic(m) => { let idx = run.case(format!("C18 mfrom data={} dec=~ enc=~", hex(data)), "panic".into()); run.fail(idx, "panic", format!("CAIManifest::from panicked: {m}")); }
+        Out::Hang => { ctl.hangs += 1; let idx = run.case(format!("C18 mfrom data={} dec=~ enc=~", hex(data)), "hang".into()); run.fail(idx, "hang", "CAIManifest::from did not return".into()); }
+    }
+}
+
+/// a `c2cm`-style box around the Brotli form of `inner`
+fn compressed_wrap(uuid: &str, label: &str, inner: &[u8], extra: Vec<T>) -> T {
+    let mut kids = vec![T::L('b', brotli_enc(inner))];
+    kids.extend(extra);
+    T::N { uuid: u16b(uuid), label: label.to_string(), salt: None, kids }
+}
+
+// ---------------------------------------------------------------------------------------------
+// stores produced through the crate-internal claim API (databoxes, credentials, embedded data)
+// ---------------------------------------------------------------------------------------------
+
+fn vc_json(id: &str) -> String {
+    serde_json::json!({"@context": ["https://www.w3.org/2018/credentials/v1"], "type": ["VerifiableCredential"], "issuer": "did:x:issuer",
+        "credentialSubject": {"id": id, "name": "V. Erif"}}).to_string()
+}
+
+/// Returns the stores produced, and counts the claims whose serialisation the SDK refused.
+fn claim_stores(run: &mut Run, rng: &mut Rng) -> Vec<Made> {
+    use c2pa::ClaimGeneratorInfo;
+    let mut out = vec![];
+    let rounds = if run.thorough() { 12 } else { 3 };
+    for round in 0..rounds {
+        for kind in ["databox", "credential", "databox+credential", "embedded", "label-nul", "credential-bad-id"] {
+            let mut r = rng.fork();
+            let v1 = kind != "embedded" && !(kind == "label-nul" && round % 2 == 0);
+            let mut c = hook::Claim::new("verif/0.1", if r.chance(1, 3) { Some("verif") } else { None }, if v1 { 1 } else { 2 });
+            if !v1 {
+                c.add_claim_generator_info(ClaimGeneratorInfo::new("verif-harness"));
+            }
+            let mut ok = hook::claim_add_user_assertion(&mut c, "org.verif.a", &serde_json::json!({"n": r.below(1000)}).to_string()).is_ok();
+            if r.chance(1, 2) {
+                ok &= hook::claim_add_user_cbor_assertion(&mut c, "org.verif.c", vec![0xa1, 0x61, 0x6b, 0x18, r.next() as u8]).is_ok();
+            }
+            if kind.contains("databox") {
+                for _ in 0..r.range(1, 3) {
+                    let n = *r.pick(&[0usize, 1, 5, 300]);
+                    let types = if r.chance(1, 3) { Some(vec![c2pa::assertions::AssetType::new("c2pa.types.generator.prompt", None)]) } else { None };
+                    ok &= c.add_databox(*r.pick(&["image/png", "text/plain", "application/octet-stream", ""]), r.bytes(n), types).is_ok();
+                }
+            }
+            if kind.contains("credential") {
+                let ids: &[&str] = if kind == "credential-bad-id" { &["", "did:x\0y"] } else { &["did:x:1", "did:nppa:eb1bb9934d9896a374c384521410c7f14", "é/../x"] };
+                for (i, id) in ids.iter().enumerate() {
+                    if i == 0 || r.chance(1, 2) {
+                        ok &= c.add_verifiable_credential(&vc_json(id)).is_ok();
+                    }
+                }
+            }
+            if kind == "embedded" {
+                ok &= hook::claim_add_embedded_data(&mut c, "c2pa.thumbnail.claim", "image/png", r.bytes(20)).is_ok();
+                ok &= hook::claim_add_embedded_data(&mut c, "c2pa.embedded-data", *r.pick(&["", "application/x-é"]), vec![]).is_ok();
+            }
+            if kind == "label-nul" {
+                ok &= hook::claim_add_user_assertion(&mut c, *r.pick(&["org.verif\0x", "\0", "org.verif.t\0"]), "{\"a\":1}").is_ok();
+            }
+            if !ok {
+                run.count("claim_api_refused");
+                continue;
+            }
+            let mut st = hook::Store::new();
+            if st.commit_claim(c).is_err() {
+                run.count("claim_commit_refused");
+                continue;
+            }
+            match hook::to_jumbf_internal(&st, 0) {
+                Ok(j) => {
+                    run.count(&format!("store_claim-{kind}"));
+                    out.push(Made { name: format!("claim-{kind}:{round}"), jumbf: j });
+                }
+                // the serialiser refuses what could not be read back (labels with NUL, empty labels)
+                Err(_) => run.count(&format!("claim_serialise_refused_{kind}")),
+            }
+        }
+    }
+    out
+}
+
+/// Replace the box at `start` (declared size `old`) by `new_box` and adjust the sizes of all enclosing boxes.
+fn replace_box(x: &[u8], start: usize, old: usize, new_box: &[u8]) -> Vec<u8> {
+    let mut hs = vec![];
+    headers(x, 0, x.len(), 0, &mut hs);
+    let mut y = x.to_vec();
+    let delta = new_box.len() as i64 - old as i64;
+    for o in hs {
+        let s = be32(x, o).unwrap_or(0) as usize;
+        if o < start && o + s >= start + old {
+            y[o..o + 4].copy_from_slice(&((s as i64 + delta) as u32).to_be_bytes());
+        }
+    }
+    y.splice(start..start + old, new_box.iter().copied());
+    y
+}
+
+/// Non-canonical but equivalent CBOR for the first databox of a store: definite map -> indefinite-length map,
+/// and the text key `dc:format` with a 2-byte length. `None` when the store has no databox.
+fn databox_noncanonical(x: &[u8], variant: u64) -> Option<Vec<u8>> {
+    let pat = b"cbor\xa2\x69dc:format";
+    let at = x.windows(pat.len()).position(|w| w == pat)?;
+    let start = at - 4;
+    let size = be32(x, start)? as usize;
+    let body = x.get(start + 8..start + size)?;
+    let mut nb: Vec<u8> = vec![];
+    match variant % 3 {
+        0 => { nb.push(0xbf); nb.extend(&body[1..]); nb.push(0xff); }
+        1 => { nb.push(0xa2); nb.extend([0x78, 0x09]); nb.extend(&body[2..]); }
+        _ => { nb.push(0xb9); nb.extend([0x00, 0x02]); nb.extend(&body[1..]); }
+    }
+    let mut bx = ((nb.len() + 8) as u32).to_be_bytes().to_vec();
+    bx.extend(b"cbor");
+    bx.extend(nb);
+    Some(replace_box(x, start, size, &bx))
+}
+
 pub fn run(run: &mut Run, rng: &mut Rng) {
-    run.rule = "inputs: manifest stores signed in-process (plain v1/v2, compressed, thumbnail resource, edit with parent ingredient, update manifest, redaction; JPEG/PNG[/GIF/WebP/WAV/SVG]) and stores of fixture assets; structure-aware mutants of them (size/type/toggles/label/large-size/truncation/insert/delete/dup at real header offsets); grammar-generated box trees (all box kinds, salt/id/signature toggles, multi-byte and invalid UTF-8 labels, quirk shapes) written by the real writer, and mutants of those bytes. non-trivial = accepted by the real reader and the fixed-point / identity oracle was evaluated (distinct by content hash)".to_string();
-    let mut ctl = Ctl { hangs: 0 };
+    run.rule = "inputs: manifest stores signed in-process (plain v1/v2, compressed, thumbnail resource, edit with parent ingredient, update manifest, redaction; JPEG/PNG[/GIF/WebP/WAV/SVG]) and stores of fixture assets; structure-aware mutants of them (size/type/toggles/label/large-size/truncation/insert/delete/dup at real header offsets); grammar-generated box trees (all box kinds, salt/id/signature toggles, multi-byte and invalid UTF-8 labels, quirk shapes) written by the real writer, and mutants of those bytes; trees built with the SDK's constructors (JUMBFDescriptionBox::new + set_salt, JUMBFEmbeddedFileDescriptionBox::new, and the CAI*AssertionBox / JumbfEmbeddedFileBox / CAIAssertionStore wrappers) from good and bad labels; stores produced through the claim API (data boxes, credentials, embedded data) and v1 Builder edits with data boxes; non-canonical CBOR in a data box; every manifest of every store and generated plain / compressed manifests through CAIManifest::from. non-trivial = accepted by the real reader and the fixed-point / identity oracle was evaluated (distinct by content hash)".to_string();
+    let mut ctl = Ctl { hangs: 0, quirky: vec![] };
 
     // ---- fixed witnesses -------------------------------------------------------------------
     let desc = |label: &[u8]| -> Vec<u8> {
@@ -919,6 +1343,96 @@ pub fn run(run: &mut Run, rng: &mut Rng) {
         run.obligations.insert(format!("depth-limit:chain-{n}"), ok);
     }
 
+    // (5) a non-canonical accepted input (unknown box skipped, size-0 header, bfdb media type without NUL):
+    //     Props.C18 `nonCanon_*` instantiates the fixed-point theorem on it
+    {
+        let x = wrap(75, &[desc(b"q"), [&12u32.to_be_bytes()[..], b"xxxx", &[1, 2, 3, 4]].concat(), [&0u32.to_be_bytes()[..], b"json"].concat(),
+            [&10u32.to_be_bytes()[..], b"bfdb", &[0, 97]].concat(), [&10u32.to_be_bytes()[..], b"bidb", &[1, 2]].concat()].concat());
+        let mut x1 = x.clone();
+        x1[16..32].copy_from_slice(&[1u8; 16]);
+        let before = run.impls.len();
+        parse_case(run, &mut ctl, &x1, "witness");
+        let reply = run.impls.get(before).cloned().unwrap_or_default();
+        run.obligations.insert("witness:non-canonical-input-is-a-fixed-point-after-one-pass".to_string(), reply.contains("ok end=75 ") && reply.contains(" ser=64:") && reply.ends_with(" re=same"));
+    }
+    // (6) finding: the payload of a large-size child box is read as sibling boxes (Props.C18 `largeChild_misread`)
+    {
+        let mut x = wrap(59, &[desc(b"q"), [&1u32.to_be_bytes()[..], b"json", &24u64.to_be_bytes()[..], &8u32.to_be_bytes()[..], b"free"].concat()].concat());
+        x[16..32].copy_from_slice(&[1u8; 16]);
+        let before = run.impls.len();
+        let (idx, _) = parse_case(run, &mut ctl, &x, "witness");
+        let reply = run.impls.get(before).cloned().unwrap_or_default();
+        if reply.contains("[json:0:0:") && reply.contains(",free:0:0:") {
+            run.fail(idx, "large-size-child-misread", "a large-size (size = 1, 64-bit length 24) json child with the 8 payload bytes 00000008 66726565 is read as an empty json box followed by a free box: the payload of a large-size child box is parsed as sibling boxes".into());
+        }
+    }
+    // (7) constructor witnesses (Props.C18 `ctorUuidEmpty_unreadable`, `ctorEmptyStore_unreadable`, `new_unreadable`)
+    {
+        let mut b = hook::CAIUUIDAssertionBox::new("c2pa.redacted");
+        b.add_uuid(U_REDACTION, vec![]).expect("uuid");
+        let t = T::N { uuid: u16b(U_UUID), label: "c2pa.redacted".into(), salt: None, kids: vec![T::U(u16b(U_REDACTION), vec![])] };
+        let before = run.impls.len();
+        tree_case_with(run, &mut ctl, &t, false, Some(written(b.super_box())), false);
+        let reply = run.impls.get(before).cloned().unwrap_or_default();
+        run.obligations.insert("witness:add_uuid-empty-data-unreadable-on-implementation".to_string(), reply.contains("err InvalidUuidBox"));
+
+        let mut m = hook::CAIManifest::new("m", hook::ManifestType::Manifest, false);
+        m.add_box(Box::new(hook::CAIAssertionStore::new()));
+        let mut cb = hook::CAIClaimBox::new(1);
+        cb.add_claim(Box::new(hook::JUMBFCBORContentBox::new(vec![0xa0])));
+        m.add_box(Box::new(cb));
+        let t = T::N { uuid: u16b(U_C2MA), label: "m".into(), salt: None, kids: vec![
+            T::N { uuid: u16b(U_C2AS), label: "c2pa.assertions".into(), salt: None, kids: vec![] },
+            T::N { uuid: u16b(U_C2CL), label: "c2pa.claim".into(), salt: None, kids: vec![T::L('c', vec![0xa0])] }] };
+        let before = run.impls.len();
+        tree_case_with(run, &mut ctl, &t, false, Some(written(&m)), false);
+        let reply = run.impls.get(before).cloned().unwrap_or_default();
+        run.obligations.insert("witness:empty-assertion-store-unreadable-on-implementation".to_string(), reply.contains("err InvalidJumbBox"));
+
+        let t = T::N { uuid: u16b(U_JSON), label: "q\0x".into(), salt: None, kids: vec![T::L('j', b"{}".to_vec())] };
+        let before = run.impls.len();
+        tree_case(run, &mut ctl, &t, false);
+        let reply = run.impls.get(before).cloned().unwrap_or_default();
+        run.obligations.insert("witness:new-label-with-nul-unreadable-on-implementation".to_string(), reply.contains("err UnexpectedEof"));
+    }
+
+    // (8) malformed requests: the model driver must refuse them instead of defaulting fields
+    for bad in [
+        "S(zz;3;61;-;~;~)[Lj(7b7d)]", "S(00000000000000000000000000000000;300;61;-;~;~)[Lj(7b7d)]", "S(00000000000000000000000000000000;3;61;x;~;~)[Lj(7b7d)]",
+        "S(00000000000000000000000000000000;3;61;-;~;~)[Lj(7b7d)]junk", "S(00000000000000000000000000000000;3;61;-;~;~)[Lj(7b7)]", "S(00000000000000000000000000000000;3;61;-;~)[Lj(7b7d)]",
+        "S(00000000000000000000000000000000;3;61;4294967296;~;~)[Lj(7b7d)]", "N(6a736f6e00110010800000aa00389b71;6g;~)[Lj(7b7d)]", "S(00000000000000000000000000000000;3;61;-;~;~)[M(x;61;~)]",
+        "S(00000000000000000000000000000000;3;61;-;~;~)[U(00;0q)]", "S(00000000000000000000000000000000;3;61;-;~;~)[Lq(00)]",
+    ] {
+        run.case(format!("C18 tree t={bad}"), "bad-tree".to_string());
+        run.count("malformed_request");
+    }
+
+    // ---- trees built with the SDK's constructors -------------------------------------------------
+    let n_ctor = if run.thorough() { 6_000 } else { 800 };
+    for i in 0..n_ctor {
+        let mut r = rng.fork();
+        let wf = i % 2 == 0;
+        if i % 4 < 2 {
+            let t = gen_ctor_tree(&mut r, 1, wf);
+            let ok = all_labels_ok(&t);
+            run.count(if ok { "ctor_labels_ok" } else { "ctor_unreadable_label" });
+            let before = run.impls.len();
+            tree_case_with(run, &mut ctl, &t, wf, None, false);
+            if !ok {
+                // `new_unreadable`: the real reader must reject what the real constructor + writer made
+                let reply = run.impls.get(before).cloned().unwrap_or_default();
+                if reply.contains(" ok end=") {
+                    let idx = run.impls.len() - 1;
+                    run.fail(idx, "ctor-roundtrip", "a box whose label was dropped by JUMBFDescriptionBox::new is accepted by the reader (the model says it is not)".into());
+                }
+            }
+        } else {
+            let (bytes, t) = gen_wrapper(&mut r, wf);
+            run.count("ctor_wrapper");
+            tree_case_with(run, &mut ctl, &t, wf, Some(bytes), false);
+        }
+    }
+
     // ---- grammar-generated trees -------------------------------------------------------------
     let n_trees = if run.thorough() { 20_000 } else { 2_500 };
     let mut small: Vec<Vec<u8>> = vec![];
@@ -950,6 +1464,7 @@ pub fn run(run: &mut Run, rng: &mut Rng) {
 
     // ---- real stores ----------------------------------------------------------------------------
     let mut stores = make_stores(run, rng);
+    stores.extend(claim_stores(run, rng));
     let n_made = stores.len();
     stores.extend(fixture_stores(run));
     run.notes.push(format!("stores signed in-process: {n_made}; fixture stores: {}", stores.len() - n_made));
@@ -979,6 +1494,52 @@ pub fn run(run: &mut Run, rng: &mut Rng) {
                 store_case(run, &mut ctl, idx, &y, false, &format!("{}+{kind}", m.name));
             }
         }
+        // every manifest of the store through CAIManifest::from (model: `manifestFrom`)
+        if let (Ok(sb), _) = read_at(&m.jumbf) {
+            for i in 0..sb.data_box_count() {
+                if let Some(child) = sb.data_box_as_superbox(i) {
+                    let cb = written(child);
+                    if cb.len() < 200_000 || run.thorough() {
+                        mfrom_case(run, &mut ctl, &cb, "store");
+                        // compressed-manifest detection looks at the first child only: the same manifest under another UUID
+                        if child.data_box_as_brotli_box(0).is_some() {
+                            let mut r = rng.fork();
+                            let mut y = cb.clone();
+                            if y.len() > 32 {
+                                y[16..32].copy_from_slice(&u16b(*r.pick(&[U_C2MA, U_C2UM, U_JSON])));
+                                run.count("mfrom_brob_other_uuid");
+                                mfrom_case(run, &mut ctl, &y, "brob-uuid");
+                            }
+                        }
+                    }
+                }
+            }
+        }
+        // a compressed store whose manifest box does not carry the c2cm UUID (still taken as compressed)
+        if m.name.starts_with("compressed") {
+            let pat = hex::decode(U_C2CM).expect("hex");
+            if let Some(at) = m.jumbf.windows(16).position(|w| w == &pat[..]) {
+                let mut y = m.jumbf.clone();
+                y[at..at + 16].copy_from_slice(&u16b(U_C2MA));
+                run.count("smut_brob-without-c2cm");
+                let (idx, acc) = parse_case(run, &mut ctl, &y, "storemut");
+                if acc {
+                    store_case(run, &mut ctl, idx, &y, false, &format!("{}+brob-without-c2cm", m.name));
+                }
+            }
+        }
+        // non-canonical (but equivalent) CBOR in a data box: the store re-encodes data boxes
+        if m.name.contains("databox") || m.name.starts_with("edit-v1") {
+            for v in 0..3 {
+                if let Some(y) = databox_noncanonical(&m.jumbf, v) {
+                    run.count("smut_databox-noncanonical-cbor");
+                    let (idx, acc) = parse_case(run, &mut ctl, &y, "storemut");
+                    if acc {
+                        store_case(run, &mut ctl, idx, &y, false, &format!("{}+databox-noncanonical-{v}", m.name));
+                    }
+                }
+            }
+        }
         // targeted: one character of the label of a manifest child box that is located by UUID
         // (claim / signature / assertion store / databoxes); the store must stay a fixed point
         for pat in [&b"c2pa.assertions\0"[..], b"c2pa.claim", b"c2pa.signature\0", b"c2pa.databoxes\0"] {
@@ -999,8 +1560,65 @@ pub fn run(run: &mut Run, rng: &mut Rng) {
         }
     }
     run.notes.push(format!("store kinds: {kinds_seen:?}"));
-    for k in ["plain-v2", "plain-v1", "compressed", "thumb", "edit"] {
+    for k in ["plain-v2", "plain-v1", "compressed", "thumb", "edit", "edit-v1", "update", "redact", "claim-databox", "claim-credential", "claim-databox+credential", "claim-embedded"] {
         run.obligations.insert(format!("stores:kind-{k}-present"), kinds_seen.contains(k));
+    }
+    run.obligations.insert("stores:databox-store-through-builder".to_string(), run.dist.get("builder_databox_store").copied().unwrap_or(0) > 0);
+    run.obligations.insert("stores:non-canonical-databox-cbor-accepted-and-normalised".to_string(), run.dist.get("smut_databox-noncanonical-cbor").copied().unwrap_or(0) > 0);
+    run.obligations.insert("labels-with-nul-refused-by-builder-and-store".to_string(), run.dist.get("builder_refused_label").copied().unwrap_or(0) > 0 && !kinds_seen.contains("badlabel") && !kinds_seen.contains("claim-label-nul") && !kinds_seen.contains("claim-credential-bad-id"));
+
+    // ---- generated manifests through CAIManifest::from ----------------------------------------------
+    let n_mf = if run.thorough() { 3_000 } else { 400 };
+    for i in 0..n_mf {
+        let mut r = rng.fork();
+        let wf = i % 3 != 2;
+        let inner_t = if r.chance(1, 2) { gen_tree(&mut r, 1, wf) } else { gen_ctor_tree(&mut r, 1, wf) };
+        let inner = written(&t_build_super(&inner_t));
+        match r.below(6) {
+            0 | 1 => mfrom_case(run, &mut ctl, &inner, "plain"),
+            2 | 3 => {
+                let w = compressed_wrap(U_C2CM, "urn:c2pa:verif", &inner, vec![]);
+                mfrom_case(run, &mut ctl, &written(&t_build_super(&w)), "compressed");
+            }
+            4 => {
+                // other UUID, further children behind the brob box
+                let extra = if r.chance(1, 2) { vec![T::L('j', b"{}".to_vec())] } else { vec![] };
+                let w = compressed_wrap(*r.pick(&[U_C2MA, U_C2UM, U_JSON]), "other", &inner, extra);
+                mfrom_case(run, &mut ctl, &written(&t_build_super(&w)), "brob-uuid");
+            }
+            _ => {
+                // damaged Brotli stream
+                let mut z = brotli_enc(&inner);
+                if r.chance(1, 2) { let k = r.below(z.len() as u64) as usize; z.truncate(k); } else { let k = r.below(z.len() as u64) as usize; z[k] ^= 1 << r.below(8); }
+                let w = T::N { uuid: u16b(U_C2CM), label: "bad".into(), salt: None, kids: vec![T::L('b', z)] };
+                mfrom_case(run, &mut ctl, &written(&t_build_super(&w)), "brotli-damaged");
+            }
+        }
+    }
+    // accepted inputs with a quirk: the re-read inside CAIManifest::from changes or rejects them
+    let quirky = std::mem::take(&mut ctl.quirky);
+    for (i, x) in quirky.iter().enumerate() {
+        if run.thorough() || i < 150 {
+            mfrom_case(run, &mut ctl, x, "quirk");
+        }
+    }
+    run.obligations.insert("manifest-reload:quirky-inputs-exercised".to_string(), quirky.len() >= 20);
+    // a Brotli stream that decompresses to nothing: the decompressor succeeds, the reader then finds no box
+    for z in [vec![0x1a, 0x54, 0x6a, 0x95, 0x22, 0x7a, 0xd8, 0x37, 0xd3], vec![0x06], brotli_enc(b"")] {
+        let w = T::N { uuid: u16b(U_C2CM), label: "empty".into(), salt: None, kids: vec![T::L('b', z)] };
+        let before = run.impls.len();
+        mfrom_case(run, &mut ctl, &written(&t_build_super(&w)), "brotli-empty");
+        let reply = run.impls.get(before).cloned().unwrap_or_default();
+        run.obligations.insert("compressed-empty-output-is-an-error".to_string(), reply.starts_with("err "));
+    }
+    // the depth budget starts again inside a compressed manifest: 32 levels inside are accepted, 33 are not
+    for n in [31usize, 32, 33] {
+        let inner = written(&t_build_super(&chain(n)));
+        let w = compressed_wrap(U_C2CM, "deep", &inner, vec![]);
+        let before = run.impls.len();
+        mfrom_case(run, &mut ctl, &written(&t_build_super(&w)), "depth");
+        let reply = run.impls.get(before).cloned().unwrap_or_default();
+        run.obligations.insert(format!("compressed-depth-restart:chain-{n}"), if n <= 32 { reply.starts_with("ok c=1") } else { reply == "err BoxNestingTooDeep" });
     }
     run.obligations.insert("no-hang".to_string(), ctl.hangs == 0);
 }
